@@ -463,6 +463,18 @@ func (x *Exec) findLoops(fr *frame, order []*ssa.BasicBlock, back map[edge]bool)
 			}
 			x.vc.oblige(fmt.Sprintf("%s#inv-init:loop%d.complete(no exit from the body)", x.eng.fnKey(fr.fn), li.ord), "inv-init", "true", goal, pos)
 		}
+		if fr.top && li.spec != nil && li.spec.Always {
+			goal := "true"
+			for _, b := range fr.fn.Blocks {
+				if b == fr.fn.Recover || len(b.Instrs) == 0 {
+					continue
+				}
+				if _, isRet := b.Instrs[len(b.Instrs)-1].(*ssa.Return); isRet && !(h == b || h.Dominates(b)) {
+					goal = "false"
+				}
+			}
+			x.vc.oblige(fmt.Sprintf("%s#inv-init:loop%d.always(every return is behind the loop)", x.eng.fnKey(fr.fn), li.ord), "inv-init", "true", goal, x.eng.pos(h.Instrs[0].Pos()))
+		}
 		fr.loops[h] = li
 	}
 }
